@@ -238,7 +238,12 @@ def main(argv=None):
         run.audit(run.ledger)
     corpus = load_json(os.path.join(VERIF, 'corpus', f'{a.prop}.json'), {})
     for s in STREAMS.get(a.prop, []):
-        run.run_stream(s, a.tier, seed, first=corpus.get(s, []))
+        # corpus of minimised past failures and the witnesses of the listed findings are replayed first
+        first = list(corpus.get(s, [])) + [k['witness'] for k in run.known if k['property'] == a.prop and k.get('stream') == s and k.get('witness')]
+        run.run_stream(s, a.tier, seed, first=first)
+    for k in run.known:
+        if k['property'] == a.prop and k['status'] == 'known' and not run.known_hits.get(k['id']):
+            run.notes.append(f"finding {k['id']} did not reproduce on this run (witness no longer fails)")
     if run.broken and not run.violations:
         # §5.3: a proof obligation or the tie no longer checks -> search the implementation for a failing input
         for extra in (seed + 1, seed + 2, seed + 3):
